@@ -179,6 +179,14 @@ theorem step_from (env : Env α) (elems : List α) (st : Mach α) (h : st.From e
       · exact hc c h
       · rw [List.mem_replicate] at h; rw [h.2]; exact from_none env elems
     · exact ⟨hc, ho, hp⟩
+  case reserveFor k =>
+    split
+    · refine ⟨?_, ho, hp⟩
+      intro c hcm
+      rcases List.mem_append.mp hcm with h | h
+      · exact hc c h
+      · rw [List.mem_replicate] at h; rw [h.2]; exact from_none env elems
+    · exact ⟨hc, ho, hp⟩
   case reserveLess =>
     split
     · exact ⟨fun c hcm => hc c (List.mem_of_mem_take hcm), ho, hp⟩
